@@ -4,12 +4,15 @@ import json, os
 HERE = os.path.dirname(os.path.abspath(__file__))
 VERIF = os.path.dirname(HERE)
 
-CHECKS = {
- # id: (technique, level text, level note, design ref)
- 'C08': ('exhaustive enumeration of all boolean arrays up to a length bound x all k, plus Hypothesis-generated long arrays, against a groupby reference model and direct run predicates',
-         'Exhaustive for every array of length <= 12 (quick) / <= 16 (thorough) and every min_n_cycles 0..len+1; random structured search beyond (length <= 400, k <= 50). Complete below the bound, sampling above it.',
-         'Trusted: numpy, the 6-line groupby reference. Input passed as a fresh copy.', 'DESIGN.md §5 C08'),
-}
+import sys, glob, importlib, warnings
+warnings.simplefilter('ignore')
+sys.path.insert(0, os.path.join(VERIF, 'pbt')); sys.path.insert(0, '/repo')
+os.environ.setdefault('MPLBACKEND', 'Agg')
+CHECKS = {}
+for f in sorted(glob.glob(os.path.join(VERIF, 'pbt', 'props', 'c[0-9][0-9].py'))):
+    m = importlib.import_module('props.' + os.path.basename(f)[:-3])
+    if getattr(m, 'REGISTER', False):
+        CHECKS[m.ID] = (m.TECHNIQUE, m.LEVEL_TEXT, '; '.join(m.ASSUMPTIONS) + ' Trusted: ' + ', '.join(m.TRUSTED), 'DESIGN.md section 5 ' + m.ID)
 NOT_APPLICABLE = {}
 
 def main():
